@@ -152,6 +152,7 @@ fn pollution(rng: &mut Rng) {
         let _ = guard(|| pmtiles2::PMTiles::from_bytes(b).map(|mut p| p.get_tile_by_id(0).map(|t| t.map(|v| v.len()))));
     }
     // failing calls
+    crate::checks::common::failing_calls_before(rng, None);
     let _ = guard(|| pmtiles2::PMTiles::from_bytes(vec![0x50u8; 300]).map(|p| p.num_tiles()));
     let _ = guard(|| pmtiles2::util::decompress_all(pmtiles2::Compression::ZStd, &[1, 2, 3]).map(|v| v.len()));
     // id helpers with far-apart arguments
@@ -166,10 +167,10 @@ fn rewrite(b: &[u8], asyncm: bool) -> Result<Vec<u8>, String> {
 
 /// More than 2^17 distinct contents, a part of which recur later under non-adjacent ids (tables that are
 /// bounded, re-seeded or evicted only show beyond such sizes).
-fn many_contents(rng: &mut Rng, codec: u8) -> Logical {
+pub fn many_contents(rng: &mut Rng, codec: u8, at_least: u64) -> Logical {
     let mut l = crate::gen::gen_logical(rng, crate::gen::SizeClass::One, codec);
     l.tiles.clear();
-    let n = 135_000u64 + rng.below(4000);
+    let n = at_least + rng.below(4000);
     let mut pool: Vec<std::rc::Rc<Vec<u8>>> = Vec::with_capacity(n as usize);
     let mut id = rng.below(1000);
     for k in 0..n {
@@ -181,18 +182,21 @@ fn many_contents(rng: &mut Rng, codec: u8) -> Logical {
         id += 1 + (k % 2);
     }
     for k in 0..25_000u64 {
-        // recurrences far behind the first occurrence, never adjacent to it
-        l.tiles.insert(id, pool[((k * 5 + 3) % n) as usize].clone());
+        // recurrences far behind the first occurrence, never adjacent to it; a part of them recur contents that were
+        // first seen late (beyond the 2^17-th / 2^18-th distinct content)
+        let src = if k % 2 == 0 { (k * 5 + 3) % n } else { n - 1 - (k % 3000) };
+        l.tiles.insert(id, pool[src as usize].clone());
         id += 2;
     }
-    l.class = format!("more than 2^17 distinct contents ({n}) with later recurrences");
+    l.class = format!("{n} distinct contents with later recurrences");
     l
 }
 
 fn many_contents_case(ctx: &mut Ctx, case: u64) {
     let mut rng = ctx.rng("c16.many", case);
     let codec = [R::C_NONE, R::C_ZSTD][(case % 2) as usize];
-    let l = many_contents(&mut rng, codec);
+    // beyond 2^17 and beyond 2^18 distinct contents
+    let l = many_contents(&mut rng, codec, if case % 2 == 0 { 135_000 } else { 266_000 });
     let mat = l.describe();
     let mut outs: Vec<(&str, Vec<u8>)> = Vec::new();
     for (label, h, asyncm) in [("sorted / sync writer", 0u32, false), ("shuffled / sync writer", 2, false), ("sorted / sync writer, second time", 0, false)] {
@@ -215,7 +219,7 @@ fn many_contents_case(ctx: &mut Ctx, case: u64) {
             ctx.violation(
                 "PMTiles::to_writer",
                 "history-dependent",
-                "equal logical archives serialise differently (more than 2^17 distinct contents)",
+                "equal logical archives serialise differently (hundreds of thousands of distinct contents)",
                 &format!("'{}' and '{}' give {} vs {} bytes, first difference at byte {at}", outs[0].0, o.0, outs[0].1.len(), o.1.len()),
                 json!({"archive": mat, "histories": [outs[0].0, o.0]}),
             );
@@ -305,7 +309,7 @@ fn xproc(ctx: &mut Ctx) {
     {
         // one archive with more than 2^17 distinct contents
         let mut rng = ctx.rng("c16.xproc.many", 0);
-        let l = many_contents(&mut rng, R::C_NONE);
+        let l = many_contents(&mut rng, R::C_NONE, 135_000);
         match guard(|| build(&l, 2, false, &mut rng)) {
             Ok(Ok(b)) => fps.push(json!(format!("{:016x}", hash_bytes(&b)))),
             _ => fps.push(json!("error")),
